@@ -22,9 +22,9 @@ import (
 func init() {
 	core.Register(&core.Prop{
 		ID: "C14", Level: "exploration",
-		Rule: "cases are (type, text) or (type, value) pairs: all strings of length<=6 over {0,1,9,-,+,.,e,space} for int and float, all 1- and 2-byte strings for boolean, every single substitution/deletion/insertion (20-character near-miss alphabet) of canonical timestamps at 4 precisions, and seed-random domain values; non-trivial = a near-miss text (edit distance 1 from a valid one, or containing a near-miss character) or a boundary value; distinct by (type, text/value)",
+		Rule:        "cases are (type, text) or (type, value) pairs: all strings of length<=6 over {0,1,9,-,+,.,e,space} for int and float, all 1- and 2-byte strings for boolean, every single substitution/deletion/insertion (20-character near-miss alphabet) of canonical timestamps at 4 precisions, and seed-random domain values; non-trivial = a near-miss text (edit distance 1 from a valid one, or containing a near-miss character) or a boundary value; distinct by (type, text/value)",
 		Assumptions: []string{"FIX float texts with a leading dot or a lone trailing dot are not judged for acceptance (FIX is ambiguous), only for value if accepted", "timestamps with SS=60 are not judged", "integers beyond 18 digits are outside the judged domain", "decimals written with fewer digits than they carry may be rounded or truncated"},
-		FloorQuick: 1000, FloorThorough: 1000,
+		FloorQuick:  1000, FloorThorough: 1000,
 		Parts: []core.Part{{Name: "types", Run: run, Replay: replay}},
 	})
 }
